@@ -162,7 +162,7 @@ def run(c, chk):
             # yy_fatal_error(msg) sites are more informative than the exit inside it
             entry = None
             for a in allow:
-                if c.owners(f.name) == {a['function']} and a['callee'] == n and (a.get('message') in (None, msg)):
+                if a['function'] in c.owners(f.name) and a['callee'] == n and (a.get('message') in (None, msg)):
                     entry = a
                     break
             if f.name == 'yy_fatal_error':
